@@ -413,7 +413,43 @@ func runLocks(a *Analyzer, r *Results) {
 				}
 			}
 		}
-		return locked && deferred
+		if locked && deferred {
+			return true
+		}
+		// straight-line accessor with an explicit unlock: Lock; reads / writes; Unlock; return  (one block, nothing
+		// guarded touched after the unlock)
+		if locked && len(f.Blocks) == 1 {
+			lockIdx, unlockIdx := -1, -1
+			for i, in := range f.Blocks[0].Instrs {
+				if c, ok := in.(*ssa.Call); ok {
+					if sc := c.Call.StaticCallee(); sc != nil && funcPkgPath(sc) == "sync" {
+						switch sc.Name() {
+						case "Lock", "RLock":
+							if lockIdx < 0 {
+								lockIdx = i
+							}
+						case "Unlock", "RUnlock":
+							unlockIdx = i
+						}
+					}
+				}
+			}
+			if lockIdx >= 0 && unlockIdx > lockIdx {
+				for i, in := range f.Blocks[0].Instrs {
+					if fa, ok := in.(*ssa.FieldAddr); ok && (i < lockIdx || i > unlockIdx) {
+						if pt, ok := fa.X.Type().Underlying().(*types.Pointer); ok && typeShort(pt.Elem()) == g.typ {
+							for _, gf := range g.fields {
+								if fieldName(fa.X.Type(), fa.Field) == gf {
+									return false
+								}
+							}
+						}
+					}
+				}
+				return true
+			}
+		}
+		return false
 	}
 	for _, g := range guards {
 		isGuarded := map[string]bool{}
